@@ -90,7 +90,7 @@ def check_direct(ctx, case):
         return
     tree = out[1]
     rcs = G.keys_of(ast, "rc")
-    asgs = case.get("assignments") or H.assignments_for(rcs, ctx.rng, full_up_to=6, sample=300)
+    asgs = case.get("assignments") or H.assignments_for(rcs, ctx.case_rng(case), full_up_to=6, sample=300)
     ctx.count("invalid_expressions" if invalid else "valid_expressions")
     for k in classify(ast):
         ctx.count("invalid:" + k)
@@ -154,7 +154,7 @@ async def check_ahb(ctx, case):
         return
     combos = list(product(logic.assignments(rcs), logic.bool_assignments(fcs)))
     if len(combos) > 250:
-        combos = ctx.rng.sample(combos, 250)
+        combos = ctx.case_rng(case).sample(combos, 250)
     for asg, fa in combos:
         ctx.evaluation()
         world = E.World("c06", rc=asg, fc=fa)
